@@ -320,7 +320,11 @@ impl<T: Storage> RaftLog<T> {
     #[deprecated = "Call raft::commit_apply(idx) instead. Joint Consensus requires an on-apply hook to
     finalize a configuration change. This will become internal API in future versions."]
     pub fn applied_to(&mut self, idx: u64) {
-        if idx == 0 {
+        // Reporting the index that is already recorded changes nothing. This also covers the
+        // first `advance` after a restart whose `Config::applied` is ahead of the stored commit
+        // index (see `Raft::new`), where `applied > committed` holds until the commit index
+        // catches up.
+        if idx == 0 || idx == self.applied {
             return;
         }
         // NOTE: here we must use `commmitted` instead of `min(committed, perssited + max_apply_unpersisted_log_limit)`
